@@ -322,14 +322,19 @@ def rule_heartbeat(ctx: Ctx) -> None:
         if isinstance(a.ctx, ast.Store) and fi is not None:
             ctx.check(fi.qualname in ("RoutingObject.__init__", "RoutingObject.beat_heart"), "sweep-coverage", fi, enclosing_stmt(a),
                       "last_activity written only by the constructor and beat_heart", "last_activity is written outside beat_heart")
-    # opened outside sockets are stored on the exit socket in the statement that opens them (so close() can always find them)
+    rule_transports_stored(ctx)
+
+
+def rule_transports_stored(ctx: Ctx, rule: str = "remove-removes") -> None:
+    """Opened outside sockets are stored on the exit socket in the statement that opens them (so close() can always find them)."""
+    repo = ctx.repo
     for fi in [f for f in repo.module("ipv8/messaging/anonymization/exit_socket.py").all_functions if f.qualname.startswith("TunnelExitSocket.enable")]:
         for c in calls(fi):
             if call_name(c) == "open" and isinstance(c.func.value, ast.Call) and chain(c.func.value.func) == "TunnelProtocol":
                 st = enclosing_stmt(c)
                 ok = isinstance(st, ast.Assign) and len(st.targets) == 1 and (chain(st.targets[0]) or "").startswith("self.transport_") and \
                     isinstance(st.value, ast.Await) and st.value.value is c
-                ctx.check(ok, "remove-removes", fi, st, "each opened transport is assigned to self.transport_* in the statement that awaits its open()",
+                ctx.check(ok, rule, fi, st, "each opened transport is assigned to self.transport_* in the statement that awaits its open()",
                           "an opened outside socket is held only in a local/gather result until later: if the task is cancelled (circuit removed, unload) or the other "
                           "open fails, close() never sees it and the UDP socket leaks")
 
